@@ -217,6 +217,13 @@ class Impl:
             shutil.copy(os.path.join(ad, src), os.path.join(ad, dst))
             op["file"], op["as"] = src, dst
             return None
+        if k == "wipe":
+            ad = os.path.join(self.P(op["hist"]), "ascmhl")
+            for fn in os.listdir(ad) if os.path.isdir(ad) else []:
+                fp = os.path.join(ad, fn)
+                if os.path.isfile(fp):
+                    os.remove(fp)
+            return None
         if k == "rmchain":
             cp = os.path.join(self.P(op["hist"]), "ascmhl", "ascmhl_chain.xml")
             if os.path.exists(cp):
@@ -539,6 +546,8 @@ def run_scenario(sc, drv=None, keep=False, impl_only=False):
                     if "as" in op:
                         drv.send({"op": "orphan", "hist": op["hist"], "file": op["file"], "as": op["as"]})
                 elif k == "rmchain":
+                    drv.send({"op": "rmchain", "hist": op["hist"], "present": False})
+                elif k == "wipe":
                     drv.send({"op": "rmchain", "hist": op["hist"], "present": False})
                 else:
                     drv.add_contents(impl.file_contents() if k != "create" or True else [])
